@@ -4095,6 +4095,20 @@ impl<'a> Parser<'a> {
                 }
             }
 
+            // Polymorphic this type
+            TokenKind::This => {
+                let name = Identifier {
+                    name: self.intern("this"),
+                    span: start,
+                };
+                self.advance();
+                Ok(TypeAnnotation::Reference(TypeReference {
+                    name,
+                    type_arguments: None,
+                    span: start,
+                }))
+            }
+
             // Object type or mapped type
             TokenKind::LBrace => {
                 self.advance();
